@@ -125,15 +125,51 @@ def check_subst(tier, seed):
                   len(jobs), fails, exhaustive=exhaustive, samples=[dict(model=str(sel[0]))] if sel else [], distinct=decided)
 
 
+# ---------------------------------------------------------------- XSD 1.1: an element particle competing with a wildcard
+def eval_competition(m):
+    """models that XSD 1.1 accepts although an element particle and a wildcard compete.  Decided for the words on which the two readings of the
+    priority rule agree (cm.in_language = exists a validation path; cm.greedy_in_language = the element takes the child wherever both could)."""
+    import xmlschema
+    try: s = xmlschema.XMLSchema11(cm.schema_text(m))
+    except xmlschema.XMLSchemaException: return None
+    mism = []; n = 0
+    for w in WORDS3:
+        exp = cm.in_language(m, w)
+        if exp != cm.greedy_in_language(m, w): continue
+        n += 1
+        try: got = s.is_valid(cm.doc(w))
+        except Exception as e: got = 'raised ' + type(e).__name__
+        if got != exp: mism.append([w, got])
+    return dict(model=m, name=cm.show(m), decided=n, mismatches=mism)
+
+
+def check_competition(tier, seed, open_findings):
+    models = [m for m in cm.variant_models() if cm.upa_ok(m, '1.1') and not cm.upa_ok(m, '1.0')]
+    sel, exhaustive = part(models, tier, seed, 2)
+    res = pmap(eval_competition, sel)
+    K = 'C01-xsd11-wildcard-rejects-names-of-competing-elements'
+    listed = load_instances('C01_xsd11_instances.json') if K in open_findings else {}
+    fails = []; nk = 0
+    for r in res:
+        if not r or not r['mismatches']: continue
+        if listed.get(r['name']) == r['mismatches']: nk += 1; continue
+        fails.append(dict(case=dict(competition=True, model=r['model']), model=r['name'], observed=dict(mismatches=r['mismatches'][:6]), required='is_valid(doc(w)) <=> w in L(m) on the words where both readings of the priority rule agree',
+                          baseline=listed.get(r['name'])))
+    return result('C01.xsd11_wildcard_element_competition', f'{len(sel)} of {len(models)} models that only XSD 1.1 accepts (an element particle competes with a wildcard) x {len(WORDS3)} words, XMLSchema11',
+                  len(sel), fails, exhaustive=exhaustive, known=({K: nk} if nk else {}), samples=[dict(model=cm.show(sel[0]))] if sel else [], distinct=sum(r['decided'] for r in res if r))
+
+
 def run(tier, seed, open_findings):
     known = load_instances('C01_instances.json') if 'C01-single-particle-group-counter' in open_findings else {}
     out = [check(list(cm.two_level_models()), 2, tier, seed, known, 'C01.two_level_models', 6),
            check(list(cm.two_level_models_rev()), 2, tier, seed, known, 'C01.two_level_models_rev', 6),
-           check(list(cm.variant_models()), 3, tier, seed, known, 'C01.variant_models', 1), check_subst(tier, seed)]
+           check(list(cm.variant_models()), 3, tier, seed, known, 'C01.variant_models', 1), check_subst(tier, seed), check_competition(tier, seed, open_findings)]
     return out
 
 
 def replay(check_name, case):
+    if case.get('competition'):
+        r = eval_competition(_tuplify(case['model'])); return dict(ok=not (r and r['mismatches']), observed=r and r['mismatches'][:8], required='is_valid(doc(w)) <=> w in L(m)')
     if case.get('subst'):
         k, leaves, o = case['model']; m = (k, [(n, tuple(oc)) for n, oc in leaves], tuple(o))
         r = sub_eval((m, case['version'])); return dict(ok=not r, observed=r, required='is_valid(doc(w)) <=> w in L(m)')
